@@ -63,7 +63,11 @@ func kvGen(t *rapid.T, prefix, label string) []prog.KV {
 			var v string
 			if bin {
 				maxRaw := rapid.SampledFrom([]int{10, 10, 10, 200, 1500}).Draw(t, label+"RawMax")
-				v = connect.EncodeBinaryHeader(rapid.SliceOfN(rapid.Byte(), 0, maxRaw).Draw(t, label+"Raw"))
+				raw := rapid.SliceOfN(rapid.Byte(), 0, maxRaw).Draw(t, label+"Raw")
+				v = connect.EncodeBinaryHeader(raw)
+				if rapid.IntRange(0, 3).Draw(t, label+"Padded") == 0 {
+					v = base64.StdEncoding.EncodeToString(raw) // padded spelling: legal, and a value like any other
+				}
 			} else if rapid.IntRange(0, 6).Draw(t, label+"Empty") == 0 {
 				v = ""
 			} else {
